@@ -9,15 +9,17 @@ def optNatI (s : String) : Option Nat := if s == "-" || s == "none" then none el
 /-- 0 = unlimited (pooled `queue_capacity`, gate `queue_capacity`) -/
 def zeroUnl (n : Nat) : Option Nat := if n == 0 then none else some n
 
-/-- header: `[current|repaired]` then `pooled pool qcap` | `conveyor cap` | `gate init_open qcap` | `batch size timeout_ns` | `reneging limit qcap` -/
+/-- header: `[current|repaired]` then `pooled pool qcap [downstream 0|1]` | `conveyor cap` | `gate init_open qcap` | `batch size timeout_ns` | `reneging limit qcap [reneged_target 0|1]` -/
 def parseHdrI : List String → Option Cfg
   | "current" :: rest => (parseHdrI rest).map fun c => { c with repaired := false }
   | "repaired" :: rest => parseHdrI rest
   | ["pooled", p, q] => some { comp := .pooled, limit := natD p, qcap := zeroUnl (natD q) }
+  | ["pooled", p, q, d] => some { comp := .pooled, limit := natD p, qcap := zeroUnl (natD q), sink := d != "0" }
   | ["conveyor", c] => some { comp := .conveyor, limit := natD c, unlimited := natD c == 0 }
   | ["gate", o, q] => some { comp := .gate, initOpen := o == "1", qcap := zeroUnl (natD q) }
   | ["batch", b, t] => some { comp := .batch, limit := natD b, timeout := natD t }
   | ["reneging", l, q] => some { comp := .reneging, limit := natD l, qcap := optNatI q }
+  | ["reneging", l, q, r] => some { comp := .reneging, limit := natD l, qcap := optNatI q, rtarget := r != "0" }
   | _ => none
 
 def parseActI : List String → Option (Nat × Act)
